@@ -344,19 +344,24 @@ Definition py_keys (v : pyval) : res pyval :=
 Definition one_char (p : pyval) : option ascii :=
   match p with PStr (String c EmptyString) => Some c | _ => None end.
 
-(* s.find(c) / s.find(c, 0, stop) for a one-character needle *)
-Definition find_from0 (s : string) (c : ascii) (stop : nat) : pyval :=
-  match find_char c s stop with Some k => PInt (Z.of_nat k) | None => PInt (-1) end.
+(* s.find(c) / s.find(c, 0, stop) for a one-character needle: the code-point offset of the first occurrence, -1 when
+   there is none.  The model string holds UTF-8 bytes: the byte offset is the answer when the text before it is ASCII;
+   otherwise the position is outside the model *)
+Definition find_from0 (s : string) (c : ascii) (stop : nat) : res pyval :=
+  match find_char c s stop with
+  | Some k => if ascii_prefix s k then Ok (PInt (Z.of_nat k)) else Err EUnmodelled
+  | None => Ok (PInt (-1))
+  end.
 Definition py_find (v c : pyval) : res pyval :=
   match v, one_char c with
-  | PStr s, Some ch => Ok (find_from0 s ch (String.length s))
+  | PStr s, Some ch => find_from0 s ch (String.length s)
   | PStr _, None => Err EUnmodelled
   | POther _, _ => Err EUnmodelled
   | _, _ => Err EAttr
   end.
 Definition py_find3 (v c lo hi : pyval) : res pyval :=
   match v, one_char c, lo, hi with
-  | PStr s, Some ch, PInt 0, PInt z => if Z.ltb z 0 then Err EUnmodelled else Ok (find_from0 s ch (Z.to_nat z))
+  | PStr s, Some ch, PInt 0, PInt z => if Z.ltb z 0 then Err EUnmodelled else find_from0 s ch (Z.to_nat z)
   | PStr _, _, _, _ => Err EUnmodelled
   | POther _, _, _, _ => Err EUnmodelled
   | _, _, _, _ => Err EAttr
